@@ -61,6 +61,9 @@ func fav4ReadFavrec(file *os.File) (*FavRaw, error) {
 	}
 
 	nFavh := favrec.getDataNumber()
+	if nFavh < 0 {
+		return nil, ErrInvalidFav4Record
+	}
 	favrec.LineID = 0
 	favrec.FolderID = 0
 	favrec.Favh = make([]*FavType, nFavh)
